@@ -22,7 +22,7 @@ PLANS["C01"] = {
              "direction, IV class (random / counter-carry classes), in-place or out-of-place, buffers placed "
              "flush against guard pages; each job's destination is compared with an independent reference "
              "model. distinct = distinct (variant, mode-key, direction, len mod 16, length class, IV length, "
-             "in-place, placement, bit residue) tuples; non-trivial = message length > 0 (all are)."),
+             "in-place, placement, bit residue) tuples; non-trivial = message length > 0 (all are). Second phase, systematic: every length of the windows 0..703 (thorough ..2303), 4032..4255, 8160..8223, 16352..16415, 40 consecutive lengths per batch, IV carry classes rotating."),
     "floors": {"quick": {"jobs_checked": 50000, "cov:C01": 3000}, "thorough": {"jobs_checked": 2000000}},
     "assumptions": ["reference models (libcrypto AES/DES block functions, own mode/3GPP/SM4 models validated "
                     "against published vectors at start-up) are correct",
@@ -38,7 +38,7 @@ PLANS["C02"] = {
     "rule": ("cases = hash/MAC jobs per (variant, algorithm) in mixed-length batches, every permitted tag "
              "length, message lengths across block/padding boundaries, bit lengths for the 3GPP MACs; tag "
              "compared on its full requested length with an independent reference. distinct = distinct "
-             "(variant, algorithm, len mod 16, length class, tag length, IV length, placement, bit residue)."),
+             "(variant, algorithm, len mod 16, length class, tag length, IV length, placement, bit residue). Second phase, systematic: every length of the windows 0..703 (thorough ..2303), 4032..4255, 8160..8223, 16352..16415, 40 consecutive lengths per batch."),
     "floors": {"quick": {"jobs_checked": 50000, "cov:C02": 3000}, "thorough": {"jobs_checked": 2000000}},
     "assumptions": ["libcrypto SHA/MD5/HMAC and own CMAC/XCBC/GMAC/Poly1305/ZUC/SNOW3G/KASUMI/SM3/CRC models "
                     "are correct (self-checked on published vectors at start-up)",
@@ -53,7 +53,7 @@ PLANS["C03"] = {
              "ChaCha20-Poly1305, SNOW-V-AEAD, SM4-GCM, DOCSIS-BPI+CRC32) in both directions; ciphertext/"
              "plaintext, tag and inserted CRC compared with independent references. distinct = distinct "
              "(variant, mode-key, direction, len mod 16, length class, IV length, tag length, AAD class, "
-             "placement)."),
+             "placement). Second phase, systematic: every length of the windows 0..703 (thorough ..2303), 4032..4255, 8160..8223, 16352..16415 per AEAD suite (PON XGEM frames with reference model included)."),
     "floors": {"quick": {"jobs_checked": 30000, "cov:C03": 2000}, "thorough": {"jobs_checked": 1000000}},
     "assumptions": ["own GCM/CCM/ChaCha20-Poly1305 models (cross-checked against libcrypto EVP at start-up) "
                     "and SNOW-V-GCM model are correct"],
@@ -194,7 +194,7 @@ PLANS["C12"] = {
              "illegal tag length 0..65, zero/over-limit/misaligned lengths, AAD over limit, CCM/DOCSIS geometry, "
              "AEAD pairing mismatches, NULL custom callbacks); buffers are write-protected during the submit; "
              "status, error code (documented acceptable set), descriptor and buffers are compared; every 16th "
-             "entry is followed by the valid job again. distinct = distinct (variant, suite, entry, API, errno)."),
+             "entry is followed by the valid job again. distinct = distinct (variant, suite, entry, API, errno). Third API: the synchronous IMB_SUBMIT_CIPHER_BURST / HASH_BURST / AEAD_BURST calls (cipher, direction, key size, hash passed as parameters taken from the perturbed descriptor; entries touching fields those calls never read are skipped). Valid variants (unused key pointer NULL) must be accepted. Direct-API sweep: every function pointer of IMB_MGR and the exported helpers x every NULL pointer argument / NULL array element x documented limits, also under ASan+UBSan."),
     "floors": {"quick": {"catalogue_entries_run": 150000, "valid_jobs_confirmed": 8000, "direct_calls_null": 100000,
                          "direct_calls_limit": 20000, "direct_functions": 122}},
     "assumptions": ["acceptable error codes per entry come from the names in the IMB_ERR enum; where two names "
@@ -223,7 +223,7 @@ PLANS["C08"] = {
              "(init must fail with IMB_ERR_MISSING_CPUFLAGS_INIT_MGR for unsupported architectures, auto must pick "
              "the best supported one, the selected variant must produce reference results); the same stream runs "
              "under valgrind, whose CPU lacks AVX512/SHA-NI/GFNI/VAES. distinct = distinct (cipher, hash, "
-             "violation or valid, status, errno) tuples + configuration pairs + CPU-model outcomes."),
+             "violation or valid, status, errno) tuples + configuration pairs + CPU-model outcomes. Every fourth unit is a batch of 2..24 jobs of one suite submitted back to back (lanes fill, jobs complete inside submit) on all 16 configurations with per-job fingerprints compared."),
     "floors": {"quick": {"items": 6000, "invalid_items": 1500, "cross_config_decrypts": 500, "cpu_models": 5}},
     "assumptions": ["7 distinct variants are reachable on this host (recorded in variants_exercised)"],
 }
@@ -292,7 +292,7 @@ PLANS["C13"] = {
              "pattern bytes; a hit is confirmed by repeating the schedule with another byte on a fresh manager; 15 "
              "key helpers are scanned after each call. distinct = distinct (variant, cipher, hash, class, job "
              "count, length mode) tuples; non-trivial = a scan was actually taken (schedules whose secrets cannot "
-             "be patterned are skipped and not counted)."),
+             "be patterned are skipped and not counted). Messages and AAD of GHASH-type MACs are in half of the schedules single-bit blocks (x^(8k) in GF(2^128)), so that GHASH partial products (message x hash key) are byte-shifted copies of the key and product residue is visible to the pattern oracle; bit-length ciphers also run with non-byte bit lengths and single-block messages."),
     "floors": {"quick": {"residue_scans": 15000, "helper_scans": 150}},
     "assumptions": ["only residue present at the return of the emptying API call is observable",
                     "derived secrets that are not byte patterns (round keys computed from a real key, Poly1305 "
